@@ -37,6 +37,8 @@ C11_Pure ==
            ("reuse" \in DOMAIN T) => Same(T.reuse.again, T.reuse.first))
   /\ Check("the variables map was modified (texts padded with white space)", ("paddedVarsUnchanged" \in DOMAIN T) => T.paddedVarsUnchanged)
   /\ Check("repeated runs differ (non-determinism)", \A i \in 1..Len(T.repeats) : Same(T.repeats[i], T.seq))
+  /\ Check("repeated runs fail with differently worded errors (non-determinism of the message)",
+           \A i \in 1..Len(T.repeats) : ("msg" \in DOMAIN T.repeats[i] /\ "msg" \in DOMAIN T.seq) => T.repeats[i].msg = T.seq.msg)
   /\ Check("repeated runs on a store that answers exactly what is asked differ (non-determinism)",
            ("repeats_exact" \in DOMAIN T) => \A i \in 1..Len(T.repeats_exact) : Same(T.repeats_exact[i], T.repeats_exact[1]))
   /\ Check("repeated runs with two unreadable variables report different errors (the caller's map order decides)",
